@@ -420,6 +420,9 @@ static void cmd_oget(int nt, char **t)
 	int ho = hidx(t[1]); char *k = keyarg(t[2]); struct json_object *v = (struct json_object *)0x1; json_bool f = json_object_object_get_ex(H[ho], k, &v);
 	struct json_object *v2 = json_object_object_get(H[ho], k);
 	ob_printf(&out, "= %d %ld %d same=%d", (int)f, uid_of(v), v == NULL, v2 == v);
+	/* documented corner forms: no result pointer (existence test), no object */
+	{ struct json_object *v4 = (struct json_object *)0x1; json_bool f3 = json_object_object_get_ex(H[ho], k, NULL), f4 = json_object_object_get_ex(NULL, k, &v4);
+	  ob_printf(&out, " exists=%d noobj=%d,%d", (int)f3, (int)f4, v4 == NULL); }
 	if (nt > 3) { int hd = hidx(t[3]); H[hd] = v; Hset[hd] = 1; }
 	free(k);
 }
@@ -951,6 +954,7 @@ int main(int argc, char **argv)
 			continue;
 		}
 		vf_progress++;
+		vf_ambient_errno();
 		dispatch(nt, tokv);
 		ob_putc(&out, '\n');
 		if (flush_each || out.n > (1 << 15)) flush_out();
